@@ -3,7 +3,8 @@
 import json, os, sys
 sys.path.insert(0, os.path.dirname(os.path.abspath(__file__)))
 import props as P
-import manifest_texts as T
+import manifest_texts as T0
+class T: TEXT=P.TEXT; NOT_YET=P.NOT_YET; NOTES=T0.NOTES
 
 VERIF = os.path.dirname(os.path.dirname(os.path.abspath(__file__)))
 allp = [json.loads(l)["id"] for l in open(os.path.join(VERIF, "properties.jsonl"))]
